@@ -17,6 +17,8 @@ def stripPos (out : String) : String :=
   else out
 
 def runCase (payload : String) : String :=
+  -- a case the harness did not run any more (its family was found endless on this tree)
+  if payload == "skip" then "SKIP\tskip=1" else
   match decodePayload payload with
   | none => "bad-payload"
   | some prog =>
